@@ -178,6 +178,11 @@ func SearchBudget(maxPaths int) {}
 // Quiesce waits until the goroutines started by the code under test have run (natively: a pause).
 func Quiesce() { time.Sleep(300 * time.Millisecond) }
 
+// Settle is Quiesce with schedule exploration: the caller waits until no other goroutine can run, and
+// WHICH of the runnable goroutines runs next (whenever one finishes or blocks) is a scheduling decision
+// the engine enumerates. Natively: a pause.
+func Settle() { time.Sleep(300 * time.Millisecond) }
+
 // RunHarness runs fn natively, reporting the outcome in the format bin/check parses.
 func RunHarness(name string, fn func()) {
 	defer func() {
